@@ -329,7 +329,10 @@ def parse_rvalue(s):
     if s.startswith('discriminant('):
         p, rest = parse_place(s[len('discriminant('):]); return ('discr', p)
     if s.startswith('&raw const ') or s.startswith('&raw mut '):
-        p, rest = parse_place(s.split(' ', 2)[2]); return ('ref', p, 'raw')
+        body = s.split(' ', 2)[2]
+        if body.startswith('(fake) '):
+            body = body[len('(fake) '):]
+        p, rest = parse_place(body); return ('ref', p, 'raw')
     if s.startswith('&mut '):
         p, rest = parse_place(s[5:]); return ('ref', p, 'mut')
     if s.startswith('&fake shallow '):
